@@ -517,7 +517,7 @@ func wellFormedResponse(list []refhpack.Field) (bool, string) {
 	status := 0
 	regular := false
 	for _, f := range list {
-		if f.Name != strings.ToLower(f.Name) {
+		if hasUpperASCII(f.Name) {
 			return false, "upper-case field name"
 		}
 		if strings.HasPrefix(f.Name, ":") {
